@@ -194,6 +194,11 @@ def run_shard(shard):
     tier, seed, bi, s, n = shard
     b = BOUNDS[tier][bi]
     acc = Acc()
+    if bi == 0 and s == 0:
+        # each nested graph gets the values addressed to ITS inputs: sibling nested graphs binding one name differently
+        from . import c05
+
+        c05.sibling_bindings(acc)
     menu = EXT_MENU_FULL if b["menu"] == "full" else EXT_MENU_QUICK
     ords = orders(b["N"], {"all": "all", "rev": "rev", "rot": "rot"}[b["orders"]])
     sl = b.get("slice")
@@ -297,4 +302,10 @@ def coverage_extra(acc, tier, seed):
 
 
 def replay(rep):
+    if rep.get("sibling_bindings"):
+        from . import c05
+
+        a = Acc()
+        c05.sibling_bindings(a)
+        return [v["message"] for v in a.violations.values()]
     return [m for _, m in check_program(rep["program"], rep["provided"], rep.get("select"), rep["runner"], rep.get("ref_program"), rep.get("graph_select"))]
